@@ -393,7 +393,7 @@ func controlC11(fx *Program, r *Report) {
 	for _, tc := range []struct {
 		m    string
 		want bool
-	}{{"GetCached", true}, {"ScanShared", true}, {"GetLazy", true}, {"GetPure", false}} {
+	}{{"GetCached", true}, {"ScanShared", true}, {"GetLazy", true}, {"GetPure", false}, {"GetGlobalMemo", true}, {"GetGlobalRead", false}} {
 		f := fx.Method(pkg, "T", tc.m)
 		if f == nil {
 			r.Control("C11.nowrite", "sharedcache."+tc.m, false, "method not found")
